@@ -5,7 +5,8 @@
    ACTION_TABLE, GOTO_TABLE, parse's type parameter) are pairwise distinct and differ from every
    identifier the user defined (nonterminals, terminal variants, the terminal enum).
    That rustc accepts the text is not a Coq statement; the check compiles the real output for
-   adversarially named grammars with trait-less payload types.  Known finding K1 (no terminals). *)
+   adversarially named grammars with trait-less payload types.  Known findings K1 (no terminals)
+   and K2 (an enum variant named `Error` makes `Self::Error` ambiguous in the emitted TryFrom impl). *)
 From Coq Require Import List.
 From Kiki Require Import Base.Ord Base.Chars Data Emit.Emit Emit.EmitProofs.
 
